@@ -342,7 +342,8 @@ def prove(report, prop_modules, props_module, extra_obligations=()):
     ok, out = lake_build(prop_modules)
     drv = re.findall(r"^import\s+(Qv\.Drv\.\S+)", open(os.path.join(LEAN, "Driver.lean")).read(), flags=re.M)
     lake_build(drv)
-    names = theorem_names(props_module) + list(extra_obligations)
+    props_modules = list(props_module) if isinstance(props_module, (list, tuple)) else [props_module]
+    names = [n for m in props_modules for n in theorem_names(m)] + list(extra_obligations)
     report.obligations += len(names)
     clean = True
     if not ok:
@@ -356,7 +357,7 @@ def prove(report, prop_modules, props_module, extra_obligations=()):
         report.broken.append({"kind": "forbidden token", "hits": hits[:10]})
         clean = False
     if ok:
-        ax, raw = axiom_audit([props_module] + [m for m in prop_modules if ".Gen." in m], names)
+        ax, raw = axiom_audit(props_modules + [m for m in prop_modules if ".Gen." in m], names)
         report.axioms = ax
         for n, a in ax.items():
             if a is None:
@@ -368,7 +369,7 @@ def prove(report, prop_modules, props_module, extra_obligations=()):
             else:
                 report.discharged += 1
     report.checker_cmd = ("cd lean && lake build " + " ".join(prop_modules) +
-                          " && #print axioms <each theorem of " + props_module + ">")
+                          " && #print axioms <each theorem of " + ", ".join(props_modules) + ">")
     return clean
 
 
